@@ -58,11 +58,23 @@ def _op_hooks(ctx, w, state):
     def inside(v):
         return w.in_box(v) is None
 
+    def strictly_inside(v):
+        return len(v) == w.n and all(p['bounds'][0] <= x <= p['bounds'][1] for x, p in zip(v, w.params))
+
+    def call(orig, site, what, parents, *a, **k):
+        # "for parents inside the box the operators return real-valued children": an exception is a broken promise
+        try:
+            return orig(*a, **k)
+        except Exception as e:
+            if all(strictly_inside(p) for p in parents) and type(e).__name__ not in ('Livelock', 'HarnessError'):
+                ctx.violation('not_real', site, '%s raised %r for parents inside the box' % (what, e))
+            raise
+
     def sbx(orig, self, p1, p2):
         ok = inside(p1) and inside(p2)
         if list(p1) == list(p2):
             ctx.probe('coincident_parents')
-        r = orig(self, p1, p2)
+        r = call(orig, 'SimulatedBinaryCrossover.cross', 'cross(%r, %r)' % (list(p1), list(p2)), (p1, p2), self, p1, p2)
         ctx.probe('sbx_calls')
         chk(r[0], 'SimulatedBinaryCrossover.cross', 'cross(%r, %r)[0]' % (list(p1), list(p2)), ok)
         chk(r[1], 'SimulatedBinaryCrossover.cross', 'cross(%r, %r)[1]' % (list(p1), list(p2)), ok)
@@ -71,7 +83,7 @@ def _op_hooks(ctx, w, state):
     def mut(name, site):
         def h(orig, self, parent, *a, **k):
             ok = inside(parent)
-            r = orig(self, parent, *a, **k)
+            r = call(orig, site, 'mutate(%r, %r)' % (list(parent), a), (parent,), self, parent, *a, **k)
             ctx.probe(name)
             chk(r, site, 'mutate(%r, %r)' % (list(parent), a), ok)
             return r
